@@ -114,7 +114,7 @@ static void runC26(Case& c) {
         return tts.schedule(pool, std::move(fn), nextAbs, (double)period * 1e-9, (size_t)times, type);
       };
       {
-        auto task = std::make_unique<dispenso::TimedTask>(makeTask());
+        auto task = vf::make_aligned<dispenso::TimedTask>(makeTask());
         if (action == 0) {
           // wait (virtual time) for completion: bounded runs finish, unbounded ones are cancelled after a while
           for (int spin = 0; spin < 4000; ++spin) {
